@@ -133,7 +133,14 @@ class ChildWorld:
         self.lib.engineexport_verif_set_loopcap.argtypes = [ctypes.c_longlong]
         self._cb = CLOCKFN(self.clock)
         self.hook_clock = self.lib.engineexport_verif_set_clock(self._cb)
-        self.hook_cap = self.lib.engineexport_verif_set_loopcap(int(self.case.get("loopcap", 300000)))
+        # loop budget of the redistribution correction (hook H2): the honest cost grows like the square root of the molecule
+        # total (one pass moves one molecule, the totals are off by about sqrt(N) after the first draw)
+        tot_ = 0.0
+        for sd_ in self.case.get("scripts", []):
+            st_ = (sd_.get("phys") or {}).get("spec", {}).get("state")
+            if st_:
+                tot_ = max(tot_, float(sum(abs(float(v_)) for v_ in st_)))
+        self.hook_cap = self.lib.engineexport_verif_set_loopcap(int(self.case.get("loopcap", 300000) + 200.0 * tot_ ** 0.5))
         self.sandbox = None
         if self.case.get("sandbox"):
             import tempfile
